@@ -61,6 +61,16 @@ def do_replay(path):
         bad = D.f2hex(a) != D.f2hex(b)
     elif kind == 'crash':
         bad = False
+    elif kind in ('formula', 'fp'):
+        print('  ' + str(body.get('note')))
+        print('  inputs: ' + ', '.join('%s=%r' % kv for kv in list(body.get('shadows', {}).items())[:16]))
+        print('  native outputs: ' + ', '.join('%s=%r' % (k, v) for k, v in list(nat.outv.items())[:16]))
+        exp = body.get('expect_native')
+        bad = True
+        if exp:
+            got = nat.outv.get(exp['out'])
+            bad = not eval(exp['cond'], {'x': got, 'nan': float('nan'), 'inf': float('inf'), 'isnan': lambda v: v != v})
+            print('  condition %s on %s=%r: %s' % (exp['cond'], exp['out'], got, 'holds' if not bad else 'VIOLATED'))
     elif kind == 'int':
         got = nat.ints.get(body['key'])
         print('  native %s = %r expected %r' % (body['key'], got, body['expected']))
